@@ -16,9 +16,9 @@ static const int64_t M_ALL = 5LL*11*23*53*101*197*389*683*1259;
 static const int64_t M_389 = 5LL*11*23*53*101*197*389;
 
 enum { KM_INT_DENSE, KM_INT_COLLIDE0, KM_INT_WRAP, KM_INT_RANDOM, KM_STR, KM_STR_COLLIDE, KM_PE_SAME, KM_PE_TWO,
-       KM_PE_WRAP, KM_PE_IDENT, KM_COUNT };
+       KM_PE_WRAP, KM_PE_IDENT, KM_PLAIN12, KM_COUNT };
 static const char* KMNAME[KM_COUNT] = { "int-dense", "int-collide-slot0", "int-collide-last-slot", "int-random", "str",
-  "str-collide", "pelem-one-hash", "pelem-two-hashes", "pelem-last-slot-hash", "pelem-identity-hash" };
+  "str-collide", "pelem-one-hash", "pelem-two-hashes", "pelem-last-slot-hash", "pelem-identity-hash", "plain12-default-hash" };
 
 static int kmode, U;
 static var K[MAXU];              /* key objects (raw allocations, outside the collector) */
@@ -32,7 +32,15 @@ static int64_t version;
 static int is_int_mode(void) { return kmode <= KM_INT_RANDOM; }
 static int is_str_mode(void) { return kmode == KM_STR || kmode == KM_STR_COLLIDE; }
 
-static var key_type_of_mode(void) { return is_int_mode() ? Int : is_str_mode() ? String : PElem; }
+/* KM_PLAIN12: a plain 12-byte key type without any instance: the Table hashes and compares it with the byte-wise
+   defaults over exactly 12 bytes.  Each harness key lives in a block with 4 more bytes behind it, which are
+   re-randomised before every operation: what lies behind a key must never matter. */
+static var Plain12;
+static int is_pe_mode(void) { return kmode >= KM_PE_SAME && kmode <= KM_PE_IDENT; }
+static var key_type_of_mode(void) { return is_int_mode() ? Int : is_str_mode() ? String : kmode == KM_PLAIN12 ? Plain12 : PElem; }
+static void scramble_tails(vh_rng* r) {
+  for (int i = 0; i < U; i++) { uint32_t t = (uint32_t)vh_next(r) | 1u; memcpy((char*)K[i] + 12, &t, 4); }
+}
 
 static int key_to_id(var k) {
   if (kmode == KM_INT_DENSE) {
@@ -42,6 +50,7 @@ static int key_to_id(var k) {
   for (int i = 0; i < U; i++) {
     if (is_int_mode()) { if (((struct Int*)k)->val == kint[i]) { return i; } }
     else if (is_str_mode()) { if (strcmp(((struct String*)k)->val, kstr[i]) == 0) { return i; } }
+    else if (kmode == KM_PLAIN12) { int32_t idx; memcpy(&idx, k, 4); return (idx >= 0 && idx < U) ? (int)idx : -1; }
     else { if (((struct PElem*)k)->id == i) { return i; } }
   }
   return -1;
@@ -80,6 +89,12 @@ static void make_keys(vh_rng* r) {
     }
     if (is_int_mode()) { K[i] = new_raw(Int, $I(kint[i])); }
     else if (is_str_mode()) { K[i] = new_raw(String, $S(kstr[i])); }
+    else if (kmode == KM_PLAIN12) {
+      char* blk = calloc(1, sizeof(struct Header) + 16);
+      K[i] = header_init(blk, Plain12, AllocHeap);
+      int32_t idx = i; memcpy(K[i], &idx, 4);
+      for (int b = 4; b < 12; b++) { ((unsigned char*)K[i])[b] = (unsigned char)(i * 31 + b * 7); }
+    }
     else {
       uint64_t h = 0;
       switch (kmode) {
@@ -94,7 +109,7 @@ static void make_keys(vh_rng* r) {
 }
 
 static void free_keys(void) {
-  for (int i = 0; i < U; i++) { del_raw(K[i]); K[i] = NULL; }
+  for (int i = 0; i < U; i++) { if (kmode == KM_PLAIN12) { free((char*)K[i] - sizeof(struct Header)); } else { del_raw(K[i]); } K[i] = NULL; }
 }
 
 /* ---------- white-box walker (reads only) ---------- */
@@ -298,6 +313,7 @@ static void run_table_case(vh_rng* r, int mode, int universe, int nops, int swee
     int phase = sweep ? (op * 3) / nops : -1;
     int wset = phase == 0 ? 70 : phase == 1 ? 15 : phase == 2 ? 60 : 45;
     int roll = (int)vh_below(r, 100);
+    if (kmode == KM_PLAIN12) { scramble_tails(r); }
     size_t slots_before = ((struct Table*)t)->nslots;
     var exc = NULL;
     if (roll < wset) {
@@ -407,7 +423,7 @@ static void run_table_case(vh_rng* r, int mode, int universe, int nops, int swee
     if (slots_after < slots_before && slots_after != 0) { vh_count("rehash_shrink"); }
     check_against(t, present, val, nmodel, strvals, opd, "model");
     whitebox(t, opd);
-    if (!is_int_mode() && !is_str_mode()) {
+    if (is_pe_mode()) {
       /* PElem keys: live elements == bindings + the U harness-held key objects */
       vh_eval();
       if (pe.live - live0 != (int64_t)nmodel + U) {
@@ -420,7 +436,7 @@ static void run_table_case(vh_rng* r, int mode, int universe, int nops, int swee
   if (events > 0 && nops >= 20) { vh_nontrivial(); }
   del(t);
   free_keys();
-  if (!is_int_mode() && !is_str_mode()) {
+  if (is_pe_mode()) {
     vh_eval();
     if (pe.live != live0) { vh_violation("C02:ledger:elements-left-after-delete", "%" PRId64 " probe keys still live after deleting the table", pe.live - live0); }
   }
@@ -491,5 +507,6 @@ int main(int argc, char** argv) {
   pe_prop = "C02";
   big_cases = getenv("VH_BIG") != NULL;
   Wide40 = new_root(Type, $S("Wide40"), $I(sizeof(struct Wide40)));
+  Plain12 = new_root(Type, $S("Plain12"), $I(12));
   return vh_run(argc, argv, "table", fixed, case_random);
 }
